@@ -1,7 +1,11 @@
 """C16 - tree search tries the best-rated fallback candidates, best first.
 
-Part 2 (proofs only so far): the order in which the modelled `Trees::search_best` calls `access`
-(SearchBest.v / SearchBestProofs.v); its correspondence harness is not written yet.
+Part 2: the order in which `Trees::search_best` calls `access`: theorems about the model `search_order`
+(SearchBest.v / SearchBestProofs.v) + correspondence of the compiled `Trees::search_best::<N, _>` (harness
+`searchrun`: tree entries and rating tables of our choosing, N = 1..8) with the extracted model (CORR) and with
+an oracle computed from the transcript alone (ORACLE: perfect matches first in walk order, then the
+min(N, #candidates) best candidates by (rating, entirely free), best first; a prefix of that when `access`
+answers something other than Err(Memory)), on all small tree arrays and on seeded random ones up to 40 trees.
 Part 1: the bounded sorted candidate buffer (`util.rs` `SortedBuffer<N, OrdBy<K, V>>`): theorems about the
 model `sb_add` (Sorted.v / SortedProofs.v) + correspondence of the compiled buffer with the extracted model
 (CORR) and with a sort-based oracle that does not use the model (ORACLE), on all short insertion sequences
@@ -10,7 +14,7 @@ import os
 import re
 import vlib
 
-# candidate buffer (part 1) and visiting order of search_best (part 2; model only, no harness yet)
+# candidate buffer (part 1) and visiting order of search_best (part 2)
 THEOREMS = ["C16_sorted_topN", "C16_best_first", "C16_first_is_max",
             "C16_search_order", "C16_search_once", "C16_walk_once", "C16_walk_all"]
 
@@ -125,7 +129,7 @@ def _suite(ctx, rel, exe, name, desc, bufargs, oracle, corr, transcript=None):
     with open(tr) as fh:
         step = max(1, s.get("evaluations", 1) // 4)
         for i, ln in enumerate(fh):
-            if i % step == step // 2 and len(ctx.samples) < 8:
+            if i % step == step // 2 and len(ctx.samples) < 4:
                 ctx.samples.append(ln.strip()[:300])
     # shrink the shortest reported mismatch of each kind (per distinct violated clause for the oracle)
     groups = {}
@@ -158,28 +162,210 @@ def _suite(ctx, rel, exe, name, desc, bufargs, oracle, corr, transcript=None):
         (oracle if kind == "ORACLE" else corr).append(entry)
 
 
+# ------------------------------------------------------------------ search_best: one explicit case
+# a case = the input part of a transcript line:  S <N> <TF> <start> <offset> <len> <stop> <entries> <table>
+def _s_parse(text):
+    m = re.search(r"in=\[(S [^\]]*)\]", text)
+    if not m:
+        return None
+    t = m.group(1).split()
+    if len(t) != 9:
+        return None
+    return {"cap": int(t[1]), "tf": int(t[2]), "start": int(t[3]), "offset": int(t[4]), "len": int(t[5]), "stop": t[6],
+            "entries": t[7].split(","), "table": [r.split(",") for r in t[8].split("/")]}
+
+
+def _s_fmt(c):
+    return "S %d %d %d %d %d %s %s %s" % (c["cap"], c["tf"], c["start"], c["offset"], c["len"], c["stop"],
+                                          ",".join(c["entries"]), "/".join(",".join(r) for r in c["table"]))
+
+
+def _s_run_one(ctx, rel, exe, case):
+    """Run one search case on the compiled code; returns (transcript line, {kind: text}) as judged by the driver."""
+    src, tr = ctx.path("sone.in"), ctx.path("sone.txt")
+    with open(src, "w") as fh:
+        fh.write(_s_fmt(case) + "\n")
+    rc, out = vlib.sh([os.path.join(rel, "searchrun"), "--from", src, "--out", tr])
+    if rc != 0:
+        return "", {"DRIVER": "searchrun failed rc=%d %s" % (rc, out[-300:])}
+    mism, _ = vlib.run_driver(ctx, exe, "search", tr)
+    res = {}
+    for kind, text in mism:
+        res.setdefault(kind, text)
+    return open(tr).read().strip(), res
+
+
+def s_shrink(ctx, rel, exe, kind, case, budget=400):
+    """Greedy shrinking of a failing search case: no stop, fewer trees, shorter walk, start 0, smaller N, rating
+    table entries replaced by Invalid.  Returns (case, line, text) of the smallest case still failing with `kind`."""
+    tests = [0]
+
+    def fails(c):
+        if tests[0] >= budget or not c["entries"] or c["offset"] > c["len"]:
+            return None
+        tests[0] += 1
+        line, res = _s_run_one(ctx, rel, exe, c)
+        return (line, res[kind]) if kind in res else None
+
+    best = fails(case)
+    if best is None:
+        return None
+    changed = True
+    while changed:
+        changed = False
+
+        def attempt(**kw):
+            nonlocal case, best, changed
+            cand = dict(case, **kw)
+            if cand == case:
+                return False
+            r = fails(cand)
+            if r:
+                case, best, changed = cand, r, True
+                return True
+            return False
+
+        attempt(stop="-")
+        # fewer trees (the walk is kept as long as the new array allows)
+        j = 0
+        while j < len(case["entries"]) and len(case["entries"]) > 1:
+            ent = case["entries"][:j] + case["entries"][j + 1:]
+            start = case["start"] - 1 if case["start"] > j else case["start"]
+            if not (attempt(entries=ent, start=max(0, min(start, len(ent) - 1)), len=min(case["len"], len(ent) + 2))
+                    or attempt(entries=ent, start=0, len=min(case["len"], len(ent)))):
+                j += 1
+        # shorter walk
+        while case["len"] > 0 and attempt(len=case["len"] - 1):
+            pass
+        while case["offset"] > 0 and attempt(offset=case["offset"] - 1):
+            pass
+        while case["offset"] < case["len"] and attempt(offset=case["offset"] + 1):
+            pass
+        attempt(start=0)
+        for n in range(1, case["cap"]):
+            if attempt(cap=n):
+                break
+        # a simpler rating table: unused rows dropped, entries -> Invalid
+        used = max(int(e.split(":")[2]) for e in case["entries"])
+        if len(case["table"]) > used + 1:
+            attempt(table=case["table"][:used + 1])
+        for ri in range(len(case["table"])):
+            for ci in range(5):
+                if case["table"][ri][ci] != "258":
+                    tab = [list(r) for r in case["table"]]
+                    tab[ri][ci] = "258"
+                    attempt(table=tab)
+    return case, best[0], best[1]
+
+
+S_FORMAT = ["# line format: S <N> <TREE_FRAMES> <start> <offset> <len> <stop> <entries free:reserved:class,...> "
+            "<rating table: one row per class, `/` separated; 5 ranks per row for free = 0 | < TF/2 | < TF | = TF | > TF; "
+            "rank 0..255 = Match(rank), 256 = Demote, 257 = Steal, 258 = Invalid> <tree indices `access` was called with> <result>",
+            "# re-run against the current code: ./check C16 --replay <this file>"]
+
+
+def _search_suite(ctx, rel, exe, name, desc, args, oracle, corr, transcript=None):
+    tr = transcript or ctx.path("search-" + name + ".txt")
+    if transcript is None:
+        rc, out = vlib.sh([os.path.join(rel, "searchrun"), "--seed", str(ctx.seed), "--out", tr] + args)
+        if rc != 0:
+            corr.append(("searchrun %s failed rc=%d" % (name, rc), [out[-500:]]))
+            return
+    mism, s = vlib.run_driver(ctx, exe, "search", tr)
+    ctx.suites.append({
+        "suite": "searchrun/%s: %s" % (name, desc),
+        "evaluations": s.get("evaluations", 0),
+        "distinct": s.get("distinct", 0),
+        "overflowed_capacity_N": s.get("overflow", 0),
+        "with_perfect_matches": s.get("perfect", 0),
+        "with_equally_rated_candidates": s.get("ties", 0),
+        "entirely_free_candidate_rated_below_a_partial_one": s.get("conflict", 0),
+        "with_a_stop": s.get("stops", 0),
+        "stop_reached": s.get("fired", 0),
+        "walk_longer_than_the_array": s.get("revisit", 0),
+        "no_access_at_all": s.get("empty", 0),
+        "distinct_access_sequences": s.get("sequences", 0),
+        "panics": s.get("panics", 0),
+        "max_trees": s.get("maxtrees", 0),
+        "capacities_N": {k[3:]: v for k, v in s.items() if re.fullmatch(r"cap\d+", k)},
+        "tree_counts": {k[5:].replace("_", "-"): v for k, v in s.items() if re.fullmatch(r"trees\d+_\d+", k)},
+        "mismatches": {"corr": s.get("corr", 0), "oracle": s.get("oracle", 0)},
+    })
+    with open(tr) as fh:
+        step = max(1, s.get("evaluations", 1) // 3)
+        for i, ln in enumerate(fh):
+            if i % step == step // 2 and len(ctx.samples) < 8:
+                ctx.samples.append(ln.strip()[:300])
+    # shrink the smallest reported mismatch of each kind (per violated clause for the oracle)
+    groups = {}
+    for kind, text in mism:
+        if kind not in ("ORACLE", "CORR"):
+            corr.append((text, []))
+            continue
+        why = re.search(r"violates=([A-Za-z()-]+)", text)
+        key = (kind, why.group(1) if why else "")
+        c = _s_parse(text)
+        if c and (key not in groups or len(c["entries"]) < len(groups[key][1]["entries"])):
+            groups[key] = (text, c)
+    seen = ctx.__dict__.setdefault("c16_seen", set())
+    for (kind, _), (text, case) in sorted(groups.items()):
+        sh = s_shrink(ctx, rel, exe, kind, case)
+        if sh is None:
+            entry = (text + " (not reproducible in isolation)", ["# original transcript line not reproducible"])
+        else:
+            c, line, t = sh
+            if (kind, line) in seen:
+                continue
+            seen.add((kind, line))
+            total = s.get("oracle" if kind == "ORACLE" else "corr", 0)
+            entry = (t + " [minimal failing search: N=%d, %d tree(s), start %d, walk positions %d..%d; %d %s mismatches in suite %s]"
+                     % (c["cap"], len(c["entries"]), c["start"], c["offset"], c["len"], total, kind, name),
+                     ["# minimal failing Trees::search_best::<%d, _> case (%d tree(s))" % (c["cap"], len(c["entries"]))]
+                     + S_FORMAT + [line])
+        (oracle if kind == "ORACLE" else corr).append(entry)
+    if not mism and transcript is None and os.path.getsize(tr) > (64 << 20):
+        os.remove(tr)   # large transcripts are kept only when something has to be looked at
+
+
 def run(ctx):
     proofs_ok = vlib.coq_prove(ctx, os.path.join(vlib.COQ, "Properties", "C16.v"), THEOREMS)
     oracle, corr = [], []
     exe = vlib.build_driver(ctx, "sorted")
-    rel = vlib.build_harness(ctx, ["bufrun"]) if exe else None
+    sexe = vlib.build_driver(ctx, "search") if exe else None
+    rel = vlib.build_harness(ctx, ["bufrun", "searchrun"]) if sexe else None
     if rel is None:
         corr.append(("build failed", ctx.notes[-1:]))
     elif ctx.replay:
         # the recorded results are ignored: the inputs are run again on the current code
-        tr = ctx.path("replay.txt")
-        rc, out = vlib.sh([os.path.join(rel, "bufrun"), "--from", ctx.replay, "--out", tr])
-        if rc != 0:
-            corr.append(("bufrun --from failed rc=%d" % rc, [out[-500:]]))
-        else:
-            _suite(ctx, rel, exe, "replay", "inputs of %s re-run on the current code" % ctx.replay, [], oracle, corr, transcript=tr)
+        # (`B` lines: candidate buffer, `S` lines: search_best)
+        kinds = {ln.split(" ", 1)[0] for ln in open(ctx.replay) if ln.strip()}
+        if "B" in kinds or "S" not in kinds:
+            tr = ctx.path("replay.txt")
+            rc, out = vlib.sh([os.path.join(rel, "bufrun"), "--from", ctx.replay, "--out", tr])
+            if rc != 0:
+                corr.append(("bufrun --from failed rc=%d" % rc, [out[-500:]]))
+            else:
+                _suite(ctx, rel, exe, "replay", "inputs of %s re-run on the current code" % ctx.replay, [], oracle, corr, transcript=tr)
+        if "S" in kinds:
+            tr = ctx.path("search-replay.txt")
+            rc, out = vlib.sh([os.path.join(rel, "searchrun"), "--from", ctx.replay, "--out", tr])
+            if rc != 0:
+                corr.append(("searchrun --from failed rc=%d" % rc, [out[-500:]]))
+            else:
+                _search_suite(ctx, rel, sexe, "replay", "inputs of %s re-run on the current code" % ctx.replay, [], oracle, corr,
+                              transcript=tr)
     else:
         if ctx.quick:
             exh = [("exhaustive", 6, 4)]
             nrand = 20000
+            # (name, first tree count, 10-entry set up to, 5-entry set up to, rating tables)
+            sexh = [("exhaustive", 1, 2, 4, 4)]
+            snrand = 100000
         else:
             exh = [("exhaustive", 8, 4), ("exhaustive-wide", 6, 6)]
             nrand = 1000000
+            sexh = [("exhaustive-1-3", 1, 3, 3, 8), ("exhaustive-4", 4, 4, 4, 3), ("exhaustive-5", 5, 4, 5, 6)]
+            snrand = 5000000
         for name, maxlen, dom in exh:
             _suite(ctx, rel, exe, name,
                    "all insertion sequences of length 0..%d over keys {0..%d}, capacities 1..8" % (maxlen, dom - 1),
@@ -188,7 +374,22 @@ def run(ctx):
                "%d seeded random sequences of length 0..64 (key pools of 1..64 keys: tiny, rating-like, 62-bit; "
                "sorted/reversed/nearly sorted/shuffled), capacities 1..8" % nrand,
                ["--random", str(nrand)], oracle, corr)
-    vlib.classify(ctx, proofs_ok, oracle, corr, name="bufrun")
+        for name, lo, full, small, tables in sexh:
+            _search_suite(ctx, rel, sexe, name,
+                          "Trees::search_best::<N, _>, N in {1,3,8}: every array of %d..%d trees (up to %d trees: free in "
+                          "{0, 1, TREE_FRAMES/2, TREE_FRAMES} x class in {0,1} + 2 reserved entries; above: 5 of these), "
+                          "%d rating tables (4 fixed + seeded), every start < ntrees, every offset <= len <= ntrees+2; "
+                          "every 4th case again with `access` answering Ok / Err(Argument) at call 1..3"
+                          % (lo, max(full, small), full, tables),
+                          ["--exh-min", str(lo), "--exh-full", str(full), "--exh-small", str(small), "--tables", str(tables)],
+                          oracle, corr)
+        _search_suite(ctx, rel, sexe, "random",
+                      "%d seeded random searches: 1..40 trees, random entries (free 0..TREE_FRAMES and beyond, reserved, "
+                      "class 0..7), random rating tables (Match(0..255), Demote, Steal, Invalid; small pools for ties), "
+                      "N 1..8 (mostly 1, 3, 8), start anywhere / aligned down as search_and_reserve does / beyond the array, "
+                      "offset 0..1, len = near, ntrees, ntrees+0..2, ...; 1/4 with an early Ok / Err(Argument)" % snrand,
+                      ["--random", str(snrand)], oracle, corr)
+    vlib.classify(ctx, proofs_ok, oracle, corr, name="bufrun/searchrun")
     return vlib.finish(
         ctx,
         "Theorems for every capacity, every total preorder on keys and every insertion sequence: the modelled "
@@ -197,9 +398,13 @@ def run(ctx):
         "SortedBuffer<N, OrdBy<u64, u64>> (N = 1..8) by running both on the same insertion sequences; the "
         "compiled buffer's output is also checked against a sort-based oracle that does not use the model. "
         "Theorems about the modelled search_best (access order = perfect matches in walk order, then the retained "
-        "candidates best first; no tree visited twice) are proved but not yet tied to the compiled search_best "
-        "by a correspondence run.",
+        "candidates best first by (rating, entirely free); no tree visited twice) are tied to the compiled "
+        "Trees::search_best::<N, _> by running it (through LLFree's public `trees` field, on tree entries written "
+        "directly into the tree buffer and table-driven rating functions) and the extracted search_order on the same "
+        "inputs; the observed access order is also checked against an oracle computed from the transcript alone.",
         "sequences: exhaustive over a small key domain (shortest first) + seeded random long ones, value = insertion "
         "index so that equal keys stay distinguishable; non-trivial = the sequence overflows the capacity or is "
         "not strictly ascending (some insertion is not an append); distinct = distinct non-trivial "
-        "(capacity, sequence) pairs")
+        "(capacity, sequence) pairs. searches: bounded-exhaustive small arrays + seeded random ones; non-trivial = the "
+        "walk meets at least two trees that are perfect matches or candidates (so that the order matters); distinct = "
+        "distinct non-trivial (N, start, offset, len, stop, entries, rating table) inputs")
